@@ -81,6 +81,22 @@ CHECKS = {
                      "(missing anywhere, slices, subtypes, images down to 2^-30) incl. input immutability and intersection invariance.",
                 technique="TLA+ oracle with theorems checked by TLC + transcription; spec->code replay; code->spec trace validation",
                 ref="§6 C15"),
+    "C16": dict(engine="GeoArrayADT/MC_GeoArray + ArrowBuf/MC_ArrowBuf/Trace_ArrowBuf",
+                text="P: the array as a sequence with every pandas derivation as an action (Python index / slice / take semantics, error "
+                     "classes); TLC enumerates every history of <= 2 steps; D: TLC checks for every Arrow layout of the modelled family "
+                     "(array offset, foreign elements around the window, byte-packed validity bitmap, 1-3 nesting levels) that the buffer "
+                     "accessors yield the abstract quantities. Histories are replayed on all seven array types (sources fresh / cut from "
+                     "larger buffers / concatenated, direct or through GeoSeries) comparing elements after each step and every derived "
+                     "quantity with a fresh array; raw layouts of real derived arrays are validated by TLC against ArrowBuf.",
+                technique="TLC enumeration of derivation histories + TLC check of buffer accessors over all layouts; spec->code replay; code->spec layout validation",
+                ref="§6 C16"),
+    "C17": dict(engine="Inert/MC_Inert/Trace_Inert (+ MC_RTree, MC_GeoFrame, MC_SJoin with NaN rows)",
+                text="The inert-row relation (row-wise, aggregate, selection, join pairs under the position shift) is a TLA+ module; TLC "
+                     "proves the P-level operators and the indexed cx mechanism satisfy it for every catalogue array / insertion set / "
+                     "inert flavour; the driver runs every operation on A and A + inert rows with arbitrary float coordinates (pandas and "
+                     "Dask) and TLC validates each logged pair against the relation.",
+                technique="metamorphic relation specified in TLA+, model-checked on P/D operators; code->spec trace validation of opaque-token pairs",
+                ref="§6 C17"),
 }
 
 NOT_YET = {}
